@@ -159,6 +159,9 @@ class Experiment:
         self.config(processes,maxchunksperchild,maxtasksperchunk)
         mp,mc,mt = self.processes,self.maxchunksperchild,self.maxtasksperchunk
 
+        #a run can happen inside of another run (a component that evaluates something of its own while it is
+        #read or asked to predict) so we put back whatever seed was here before rather than just removing ours
+        has_old_seed,old_seed = 'experiment_seed' in CobaContext.store, CobaContext.store.get('experiment_seed')
         CobaContext.store['experiment_seed'] = seed
         is_multiproc = mp > 1 or mc != 0
 
@@ -208,7 +211,11 @@ class Experiment:
             CobaContext.logger.log("Experiment Finished")
 
         CobaContext.logger = old_logger
-        del CobaContext.store['experiment_seed']
+
+        if has_old_seed:
+            CobaContext.store['experiment_seed'] = old_seed
+        else:
+            CobaContext.store.pop('experiment_seed',None)
 
         return Pipes.join(source,decode,result).read()
 
